@@ -1,4 +1,683 @@
 ------------------------------ MODULE IonText ------------------------------
-EXTENDS IonData
-TextDecode(bs) == [ok |-> FALSE, why |-> "text decoder not built yet", at |-> 0]
+(***************************************************************************)
+(* Ion 1.0 text: a total recogniser/decoder written from the Ion text      *)
+(* grammar (DESIGN.md Appendix D).  It shares nothing with ion-go and is   *)
+(* the judge for everything the text writers emit and the reference for    *)
+(* every spelling handed to the text reader.                               *)
+(*                                                                         *)
+(*   TextDecode(bs) = [ok |-> TRUE, forest |-> Seq(value), ctx |-> ...]    *)
+(*                  | [ok |-> FALSE, why |-> reason, at |-> byte index]    *)
+(*                                                                         *)
+(* Reasons starting with "open:" or "limit:" mark points the Ion           *)
+(* specification leaves open (or legitimate implementation limits); such   *)
+(* inputs are never used as must-accept or must-reject cases.              *)
+(***************************************************************************)
+EXTENDS IonBinary
+
+EOFc == -1
+At(bs, p) == IF p >= 1 /\ p <= Len(bs) THEN bs[p] ELSE EOFc
+
+IsWs(c)      == c \in {32, 9, 10, 13, 11, 12}
+IsDigit(c)   == c >= 48 /\ c <= 57
+IsHexDig(c)  == IsDigit(c) \/ (c >= 65 /\ c <= 70) \/ (c >= 97 /\ c <= 102)
+HexVal(c)    == IF IsDigit(c) THEN c - 48 ELSE IF c >= 97 THEN c - 87 ELSE c - 55
+IsLetter(c)  == (c >= 65 /\ c <= 90) \/ (c >= 97 /\ c <= 122)
+IsIdStart(c) == IsLetter(c) \/ c = 95 \/ c = 36
+IsIdPart(c)  == IsIdStart(c) \/ IsDigit(c)
+\* ! # % & * + - . / ; < = > ? @ ^ ` | ~
+OpChars      == {33, 35, 37, 38, 42, 43, 45, 46, 47, 59, 60, 61, 62, 63, 64, 94, 96, 124, 126}
+IsOp(c)      == c \in OpChars
+\* characters that end a scalar token: { } [ ] ( ) , " ' and whitespace, EOF
+StopSet      == {123, 125, 91, 93, 40, 41, 44, 34, 39, 32, 9, 10, 13, 11, 12}
+IsStop(c)    == c = EOFc \/ c \in StopSet
+IsCommentStart(bs, p) == At(bs, p) = 47 /\ At(bs, p + 1) \in {47, 42}
+\* a scalar ends here: stop character, end of input or the start of a comment
+EndsScalar(bs, p) == IsStop(At(bs, p)) \/ IsCommentStart(bs, p)
+
+Str(s) == s     \* (documentation aid: byte strings are written as tuples of character codes)
+
+(***************************************************************************)
+(* Whitespace and comments                                                 *)
+(***************************************************************************)
+\* index after the end of a // comment starting its text at p (the newline itself is whitespace)
+EndOfLine(bs, p) == LET q == SelectInSubSeq(bs, p, Len(bs), LAMBDA c : c \in {10, 13})
+                    IN IF q = 0 THEN Len(bs) + 1 ELSE q
+
+\* index after the closing */ of a block comment whose text starts at p; 0 if unterminated
+RECURSIVE BlockEnd(_, _)
+BlockEnd(bs, p) == LET q == SelectInSubSeq(bs, p, Len(bs), LAMBDA c : c = 42)
+                   IN IF q = 0 THEN 0
+                      ELSE IF At(bs, q + 1) = 47 THEN q + 2 ELSE BlockEnd(bs, q + 1)
+
+RECURSIVE SkipWs(_, _)
+SkipWs(bs, p) ==
+  LET c == At(bs, p)
+  IN IF IsWs(c) THEN
+        LET q == SelectInSubSeq(bs, p, Len(bs), LAMBDA x : ~IsWs(x))
+        IN IF q = 0 THEN [ok |-> TRUE, next |-> Len(bs) + 1] ELSE SkipWs(bs, q)
+     ELSE IF c = 47 /\ At(bs, p + 1) = 47 THEN SkipWs(bs, EndOfLine(bs, p + 2))
+     ELSE IF c = 47 /\ At(bs, p + 1) = 42 THEN
+        LET e == BlockEnd(bs, p + 2)
+        IN IF e = 0 THEN Rej("unterminated block comment", p) ELSE SkipWs(bs, e)
+     ELSE [ok |-> TRUE, next |-> p]
+
+\* whitespace only (inside {{ }} comments are not allowed)
+SkipPlainWs(bs, p) ==
+  IF ~IsWs(At(bs, p)) THEN p
+  ELSE LET q == SelectInSubSeq(bs, p, Len(bs), LAMBDA x : ~IsWs(x))
+       IN IF q = 0 THEN Len(bs) + 1 ELSE q
+
+(***************************************************************************)
+(* Escapes, strings, quoted symbols, clobs                                 *)
+(***************************************************************************)
+HexRun(bs, p, n) == \A i \in p..(p + n - 1) : IsHexDig(At(bs, i))
+HexNum(bs, p, n) == FoldLeft(LAMBDA acc, c : acc * 16 + HexVal(c), 0, SubSeq(bs, p, p + n - 1))
+
+\* An escape sequence starting with the backslash at p.
+\*   [ok, bytes |-> what it denotes, next]  ;  clob = TRUE forbids \u \U and yields raw bytes for \x
+SimpleEsc(c) ==
+  CASE c = 48 -> <<0>>   [] c = 97 -> <<7>>   [] c = 98 -> <<8>>   [] c = 116 -> <<9>>
+    [] c = 110 -> <<10>> [] c = 102 -> <<12>> [] c = 114 -> <<13>> [] c = 118 -> <<11>>
+    [] c = 34 -> <<34>>  [] c = 39 -> <<39>>  [] c = 63 -> <<63>>  [] c = 47 -> <<47>>
+    [] c = 92 -> <<92>>  [] OTHER -> <<>>
+IsSimpleEsc(c) == c \in {48, 97, 98, 116, 110, 102, 114, 118, 34, 39, 63, 47, 92}
+
+IsHighSurr(cp) == cp >= 55296 /\ cp <= 56319
+IsLowSurr(cp)  == cp >= 56320 /\ cp <= 57343
+
+Escape(bs, p, clob) ==
+  LET c == At(bs, p + 1)
+  IN IF c = EOFc THEN Rej("input ends inside an escape", p)
+     ELSE IF IsSimpleEsc(c) THEN [ok |-> TRUE, bytes |-> SimpleEsc(c), next |-> p + 2]
+     ELSE IF c = 10 THEN [ok |-> TRUE, bytes |-> <<>>, next |-> p + 2]          \* line continuation
+     ELSE IF c = 13 THEN [ok |-> TRUE, bytes |-> <<>>,
+                          next |-> IF At(bs, p + 2) = 10 THEN p + 3 ELSE p + 2]
+     ELSE IF c = 120 THEN
+          IF ~HexRun(bs, p + 2, 2) THEN Rej("bad \\x escape", p)
+          ELSE LET v == HexNum(bs, p + 2, 2)
+               IN [ok |-> TRUE, bytes |-> IF clob THEN <<v>> ELSE Utf8Encode(v), next |-> p + 4]
+     ELSE IF c = 117 /\ ~clob THEN
+          IF ~HexRun(bs, p + 2, 4) THEN Rej("bad \\u escape", p)
+          ELSE LET v == HexNum(bs, p + 2, 4)
+               IN IF IsLowSurr(v) THEN Rej("lone low surrogate escape", p)
+                  ELSE IF IsHighSurr(v) THEN
+                       \* must be followed by \u low surrogate: one code point
+                       IF At(bs, p + 6) = 92 /\ At(bs, p + 7) = 117 /\ HexRun(bs, p + 8, 4)
+                          /\ IsLowSurr(HexNum(bs, p + 8, 4))
+                       THEN LET lo == HexNum(bs, p + 8, 4)
+                                cp == 65536 + (v - 55296) * 1024 + (lo - 56320)
+                            IN [ok |-> TRUE, bytes |-> Utf8Encode(cp), next |-> p + 12]
+                       ELSE Rej("lone high surrogate escape", p)
+                  ELSE [ok |-> TRUE, bytes |-> Utf8Encode(v), next |-> p + 6]
+     ELSE IF c = 85 /\ ~clob THEN
+          IF ~HexRun(bs, p + 2, 8) THEN Rej("bad \\U escape", p)
+          ELSE IF HexNum(bs, p + 2, 2) # 0 \/ HexNum(bs, p + 4, 6) > 1114111
+               THEN Rej("\\U escape beyond U+10FFFF", p)
+          ELSE LET v == HexNum(bs, p + 4, 6)
+               IN IF IsSurrogate(v) THEN Rej("surrogate in \\U escape", p)
+                  ELSE [ok |-> TRUE, bytes |-> Utf8Encode(v), next |-> p + 10]
+     ELSE Rej("illegal escape", p)
+
+\* Body of a quoted token: from p up to (not including) the terminator.
+\*   q       the quote character (34 or 39)
+\*   long    TRUE for '''...''' (terminator is ''' ; raw newlines allowed and normalised)
+\*   clob    TRUE inside {{ }}: 7-bit only, no \u \U
+\* Returns [ok, bytes, next |-> index after the closing quote(s)]
+RECURSIVE QuotedBody(_, _, _, _, _, _)
+QuotedBody(bs, p, q, long, clob, acc) ==
+  LET s == SelectInSubSeq(bs, p, Len(bs),
+             LAMBDA c : c = q \/ c = 92 \/ c < 32 \/ (clob /\ c > 127))
+  IN IF s = 0 THEN Rej("unterminated quoted text", p)
+     ELSE
+     LET run == acc \o SubSeq(bs, p, s - 1)
+         c == bs[s]
+     IN IF c = 92 THEN
+             LET e == Escape(bs, s, clob)
+             IN IF ~e.ok THEN e ELSE QuotedBody(bs, e.next, q, long, clob, run \o e.bytes)
+        ELSE IF c = q THEN
+             IF ~long THEN [ok |-> TRUE, bytes |-> run, next |-> s + 1]
+             ELSE IF At(bs, s + 1) = q /\ At(bs, s + 2) = q
+                  THEN [ok |-> TRUE, bytes |-> run, next |-> s + 3]
+                  ELSE QuotedBody(bs, s + 1, q, long, clob, Append(run, c))
+        ELSE IF c \in {10, 13} THEN
+             IF ~long THEN Rej("raw newline in short quoted text", s)
+             ELSE IF c = 13 THEN QuotedBody(bs, IF At(bs, s + 1) = 10 THEN s + 2 ELSE s + 1,
+                                            q, long, clob, Append(run, 10))
+             ELSE QuotedBody(bs, s + 1, q, long, clob, Append(run, 10))
+        ELSE IF c \in {9, 11, 12} THEN QuotedBody(bs, s + 1, q, long, clob, Append(run, c))
+        ELSE IF c < 32 THEN Rej("open: raw control character in quoted text", s)
+        ELSE Rej("non-ASCII character in clob", s)
+
+IsTriple(bs, p) == At(bs, p) = 39 /\ At(bs, p + 1) = 39 /\ At(bs, p + 2) = 39
+
+\* one or more '''...''' segments separated by whitespace (and comments unless clob)
+RECURSIVE LongSegments(_, _, _, _)
+LongSegments(bs, p, clob, acc) ==
+  LET b == QuotedBody(bs, p + 3, 39, TRUE, clob, <<>>)
+  IN IF ~b.ok THEN b
+     ELSE LET w == IF clob THEN [ok |-> TRUE, next |-> SkipPlainWs(bs, b.next)] ELSE SkipWs(bs, b.next)
+          IN IF ~w.ok THEN
+                \* an unterminated comment after a complete string: the string itself is complete
+                [ok |-> TRUE, bytes |-> acc \o b.bytes, next |-> b.next]
+             ELSE IF IsTriple(bs, w.next) THEN LongSegments(bs, w.next, clob, acc \o b.bytes)
+             ELSE [ok |-> TRUE, bytes |-> acc \o b.bytes, next |-> b.next]
+
+\* a string value at p (p is at " or at ''')
+ParseString(bs, p) ==
+  LET r == IF At(bs, p) = 34 THEN QuotedBody(bs, p + 1, 34, FALSE, FALSE, <<>>)
+           ELSE LongSegments(bs, p, FALSE, <<>>)
+  IN IF ~r.ok THEN r
+     ELSE IF ~Utf8Valid(r.bytes) THEN Rej("string is not valid UTF-8", p)
+     ELSE r
+
+\* a quoted symbol at p (p is at a single ' that is not a triple quote)
+ParseQuotedSymbol(bs, p) ==
+  LET r == QuotedBody(bs, p + 1, 39, FALSE, FALSE, <<>>)
+  IN IF ~r.ok THEN r
+     ELSE IF ~Utf8Valid(r.bytes) THEN Rej("symbol text is not valid UTF-8", p)
+     ELSE r
+
+(***************************************************************************)
+(* Blobs and clobs:  p is at the first { of {{                             *)
+(***************************************************************************)
+B64Val(c) == IF c >= 65 /\ c <= 90 THEN c - 65
+             ELSE IF c >= 97 /\ c <= 122 THEN c - 71
+             ELSE IF IsDigit(c) THEN c + 4
+             ELSE IF c = 43 THEN 62 ELSE IF c = 47 THEN 63 ELSE -1
+
+B64Decode(chars) ==     \* chars: base64 characters without whitespace, length a multiple of 4
+  LET n == Len(chars) \div 4
+      quad(k) == LET a == B64Val(chars[4*k-3])  b == B64Val(chars[4*k-2])
+                     c == chars[4*k-1]          d == chars[4*k]
+                 IN IF c = 61 THEN <<a * 4 + b \div 16>>
+                    ELSE IF d = 61 THEN <<a * 4 + b \div 16, (b % 16) * 16 + B64Val(c) \div 4>>
+                    ELSE <<a * 4 + b \div 16, (b % 16) * 16 + B64Val(c) \div 4,
+                           (B64Val(c) % 4) * 64 + B64Val(d)>>
+  IN FlattenSeq([k \in 1..n |-> quad(k)])
+
+B64WellFormed(chars) ==
+  /\ Len(chars) % 4 = 0
+  /\ \A i \in 1..Len(chars) :
+        \/ B64Val(chars[i]) >= 0
+        \/ chars[i] = 61 /\ i >= Len(chars) - 1 /\ (i = Len(chars) - 1 => chars[Len(chars)] = 61)
+  /\ Len(chars) > 0 =>
+        LET a == chars[Len(chars) - 1]  b == chars[Len(chars)]
+        IN /\ (a = 61 => B64Val(chars[Len(chars) - 2]) % 16 = 0)
+           /\ (a # 61 /\ b = 61 => B64Val(a) % 4 = 0)
+
+ParseLob(bs, p) ==
+  LET s == SkipPlainWs(bs, p + 2)
+      c == At(bs, s)
+  IN IF c = 34 \/ IsTriple(bs, s) THEN
+        LET r == IF c = 34 THEN QuotedBody(bs, s + 1, 34, FALSE, TRUE, <<>>)
+                 ELSE LongSegments(bs, s, TRUE, <<>>)
+        IN IF ~r.ok THEN r
+           ELSE LET e == SkipPlainWs(bs, r.next)
+                IN IF At(bs, e) = 125 /\ At(bs, e + 1) = 125
+                   THEN [ok |-> TRUE, v |-> Val("clob", <<>>, r.bytes), next |-> e + 2]
+                   ELSE Rej("clob not closed by }}", e)
+     ELSE
+        LET e == SelectInSubSeq(bs, s, Len(bs), LAMBDA x : x = 125)
+        IN IF e = 0 THEN Rej("unterminated blob", p)
+           ELSE IF At(bs, e + 1) # 125 THEN Rej("blob not closed by }}", e)
+           ELSE LET chars == SelectSeq(SubSeq(bs, s, e - 1), LAMBDA x : ~IsWs(x))
+                IN IF ~B64WellFormed(chars) THEN Rej("malformed base64 in blob", s)
+                   ELSE [ok |-> TRUE, v |-> Val("blob", <<>>, B64Decode(chars)), next |-> e + 2]
+
+(***************************************************************************)
+(* Numbers                                                                 *)
+(***************************************************************************)
+\* digit run with single underscores between digits: D(_?D)*  — returns the digit values or fails
+DigitsOK(tok, isDig(_)) ==
+  /\ tok # <<>> /\ isDig(tok[1]) /\ isDig(tok[Len(tok)])
+  /\ \A i \in 1..Len(tok) : isDig(tok[i]) \/ (tok[i] = 95 /\ tok[i - 1] # 95)
+DigitVals(tok) == LET ds == SelectSeq(tok, LAMBDA c : c # 95)
+                  IN [i \in 1..Len(ds) |-> HexVal(ds[i])]
+
+IsBinDig(c) == c \in {48, 49}
+
+\* decimal integer part: 0 | [1-9](_?[0-9])*
+IntPartOK(tok) == DigitsOK(tok, IsDigit) /\ (tok[1] = 48 => Len(tok) = 1)
+
+\* exponent digits: [+-]?[0-9]+   -> [ok, neg, val (saturating)]
+ExpOf(tok) ==
+  LET signed == tok # <<>> /\ tok[1] \in {43, 45}
+      ds == IF signed THEN Tail(tok) ELSE tok
+  IN IF ds = <<>> \/ \E i \in 1..Len(ds) : ~IsDigit(ds[i]) THEN [ok |-> FALSE]
+     ELSE [ok |-> TRUE, neg |-> signed /\ tok[1] = 45,
+           val |-> ToSmall(FromDec([i \in 1..Len(ds) |-> ds[i] - 48]))]
+
+(* ---- decimal text -> IEEE-754 binary64, exactly (round to nearest, ties to even) ---- *)
+BitsOf(b) == LET s == Strip(b)
+             IN IF s = <<>> THEN <<>>
+                ELSE LET all == FlattenSeq([i \in 1..Len(s) |-> Bits(s[i], 8)])
+                         f == SelectInSeq(all, LAMBDA x : x = 1)
+                     IN SubSeq(all, f, Len(all))
+
+\* add one to a bit list (may grow by one bit)
+IncBits(bits) ==
+  LET r == FoldRight(LAMBDA x, acc : [carry |-> (x + acc.carry) \div 2,
+                                       out |-> <<(x + acc.carry) % 2>> \o acc.out],
+                     bits, [carry |-> 1, out |-> <<>>])
+  IN IF r.carry = 1 THEN <<1>> \o r.out ELSE r.out
+
+RECURSIVE DivPow10(_, _, _)
+\* floor(b / 10^n) with sticky remainder flag
+DivPow10(b, n, sticky) ==
+  IF n = 0 THEN [q |-> b, sticky |-> sticky]
+  ELSE IF n >= 4 THEN LET qr == DivModSmall(b, 10000) IN DivPow10(qr[1], n - 4, sticky \/ qr[2] # 0)
+  ELSE LET qr == DivModSmall(b, 10) IN DivPow10(qr[1], n - 1, sticky \/ qr[2] # 0)
+
+RECURSIVE MulPow10(_, _)
+MulPow10(b, n) == IF n = 0 THEN b
+                  ELSE IF n >= 4 THEN MulPow10(MulSmallAdd(b, 10000, 0), n - 4)
+                  ELSE MulPow10(MulSmallAdd(b, 10, 0), n - 1)
+
+F64Bits(sign, biased, mant52) == PackBytes(<<sign>> \o Bits(biased, 11) \o mant52)
+InfBits(sign) == F64Bits(sign, 2047, Zeros(52))
+
+\* digits: decimal digits (values), e10: power of ten (|e10| < Huge)
+DecToF64(neg, digits, e10) ==
+  LET sign == IF neg THEN 1 ELSE 0
+      sig  == LET f == SelectInSeq(digits, LAMBDA d : d # 0)
+              IN IF f = 0 THEN <<>> ELSE SubSeq(digits, f, Len(digits))
+      nd   == Len(sig)
+  IN IF sig = <<>> THEN F64Bits(sign, 0, Zeros(52))
+     ELSE IF nd + e10 > 310 THEN InfBits(sign)
+     ELSE IF nd + e10 < -330 THEN F64Bits(sign, 0, Zeros(52))
+     ELSE
+     LET c  == FromDec(sig)
+         kB == IF e10 >= 0 THEN 0 ELSE ((4 * (0 - e10) + 64) \div 8) + 1     \* bytes shifted in
+         big == IF e10 >= 0 THEN [q |-> MulPow10(c, e10), sticky |-> FALSE]
+                ELSE DivPow10(c \o Zeros(kB), 0 - e10, FALSE)
+         E  == 0 - 8 * kB                        \* value = q * 2^E (plus sticky)
+         qb == BitsOf(big.q)
+         L  == Len(qb)
+         e  == L - 1 + E                         \* value in [2^e, 2^(e+1))
+         keep == IF e >= -1022 THEN 53 ELSE e + 1075       \* significant bits kept (may be <= 0)
+     IN IF e > 1023 THEN InfBits(sign)
+        ELSE IF keep < 0 THEN F64Bits(sign, 0, Zeros(52))  \* below half of the least subnormal
+        ELSE
+        LET padded == IF L < keep + 1 THEN qb \o Zeros(keep + 1 - L) ELSE qb
+            kept   == SubSeq(padded, 1, keep)
+            guard  == padded[keep + 1]
+            rest   == big.sticky \/ \E i \in (keep + 2)..Len(padded) : padded[i] = 1
+            odd    == keep > 0 /\ kept[keep] = 1
+            up     == guard = 1 /\ (rest \/ odd)
+            m      == IF up THEN (IF keep = 0 THEN <<1>> ELSE IncBits(kept)) ELSE kept
+        IN IF e >= -1022 THEN
+              \* normal: m has 53 bits, or 54 after a carry (then it is 1 followed by zeros)
+              IF Len(m) = 54 THEN (IF e + 1 > 1023 THEN InfBits(sign)
+                                   ELSE F64Bits(sign, e + 1 + 1023, Zeros(52)))
+              ELSE F64Bits(sign, e + 1023, SubSeq(m, 2, 53))
+           ELSE
+              \* subnormal: m has keep (<= 52) bits, or keep + 1 after a carry
+              IF Len(m) = 53 THEN F64Bits(sign, 1, Zeros(52))
+              ELSE F64Bits(sign, 0, Zeros(52 - Len(m)) \o m)
+
+(* ---- timestamps ---- *)
+TwoDig(tok, i) == IsDigit(At(tok, i)) /\ IsDigit(At(tok, i + 1))
+Num2(tok, i)   == (tok[i] - 48) * 10 + (tok[i + 1] - 48)
+Num4(tok, i)   == Num2(tok, i) * 100 + Num2(tok, i + 2)
+
+TsRec(y, mo, d, h, mi, s, frac, off, known, prec) ==
+  [y |-> y, mo |-> mo, d |-> d, h |-> h, mi |-> mi, s |-> s, frac |-> frac,
+   off |-> off, known |-> known, prec |-> prec]
+
+\* offset text at tok[i..]: Z | +hh:mm | -hh:mm, must end the token -> [ok, off, known]
+OffsetOf(tok, i) ==
+  IF At(tok, i) = 90 /\ i = Len(tok) THEN [ok |-> TRUE, off |-> 0, known |-> TRUE]
+  ELSE IF At(tok, i) \in {43, 45} /\ TwoDig(tok, i + 1) /\ At(tok, i + 3) = 58 /\ TwoDig(tok, i + 4)
+          /\ i + 5 = Len(tok)
+       THEN LET hh == Num2(tok, i + 1)  mm == Num2(tok, i + 4)
+            IN IF hh > 23 \/ mm > 59 THEN [ok |-> FALSE]
+               ELSE IF tok[i] = 45 /\ hh = 0 /\ mm = 0 THEN [ok |-> TRUE, off |-> 0, known |-> FALSE]
+               ELSE [ok |-> TRUE, off |-> (IF tok[i] = 45 THEN -1 ELSE 1) * (hh * 60 + mm), known |-> TRUE]
+  ELSE [ok |-> FALSE]
+
+\* local wall-clock fields + offset -> the record of IonData (UTC fields)
+Localised(y, mo, d, h, mi, s, frac, o, prec) ==
+  LET u == AddMinutes([y |-> y, mo |-> mo, d |-> d, h |-> h, mi |-> mi], 0 - o.off)
+  IN IF u.y < 1 \/ u.y > 9999 THEN Rej("open: timestamp whose UTC year leaves 0001..9999", 0)
+     ELSE [ok |-> TRUE, ts |-> TsRec(u.y, u.mo, u.d, u.h, u.mi, s, frac, o.off, o.known, prec)]
+
+ParseTimestampTok(tok) ==
+  LET bad == Rej("malformed timestamp", 0)
+      n == Len(tok)
+  IN IF ~(TwoDig(tok, 1) /\ TwoDig(tok, 3)) THEN bad
+     ELSE
+     LET y == Num4(tok, 1)
+     IN IF y < 1 THEN Rej("timestamp year 0000", 0)
+        ELSE IF n = 5 /\ tok[5] = 84 THEN [ok |-> TRUE, ts |-> TsRec(y, 1, 1, 0, 0, 0, <<>>, 0, FALSE, 1)]
+        ELSE IF ~(At(tok, 5) = 45 /\ TwoDig(tok, 6)) THEN bad
+        ELSE
+        LET mo == Num2(tok, 6)
+        IN IF mo < 1 \/ mo > 12 THEN Rej("timestamp month out of range", 0)
+           ELSE IF n = 8 /\ tok[8] = 84 THEN [ok |-> TRUE, ts |-> TsRec(y, mo, 1, 0, 0, 0, <<>>, 0, FALSE, 2)]
+           ELSE IF ~(At(tok, 8) = 45 /\ TwoDig(tok, 9)) THEN bad
+           ELSE
+           LET d == Num2(tok, 9)
+           IN IF d < 1 \/ d > DaysIn(y, mo) THEN Rej("timestamp day out of range", 0)
+              ELSE IF n = 10 \/ (n = 11 /\ tok[11] = 84)
+                   THEN [ok |-> TRUE, ts |-> TsRec(y, mo, d, 0, 0, 0, <<>>, 0, FALSE, 3)]
+              ELSE IF ~(At(tok, 11) = 84 /\ TwoDig(tok, 12) /\ At(tok, 14) = 58 /\ TwoDig(tok, 15)) THEN bad
+              ELSE
+              LET h == Num2(tok, 12)  mi == Num2(tok, 15)
+              IN IF h > 23 \/ mi > 59 THEN Rej("timestamp hour or minute out of range", 0)
+                 ELSE IF At(tok, 17) # 58 THEN
+                      LET o == OffsetOf(tok, 17)
+                      IN IF ~o.ok THEN Rej("timestamp with time needs a valid offset", 0)
+                         ELSE Localised(y, mo, d, h, mi, 0, <<>>, o, 4)
+                 ELSE IF ~TwoDig(tok, 18) THEN bad
+                 ELSE
+                 LET s == Num2(tok, 18)
+                 IN IF s > 59 THEN Rej("timestamp second out of range", 0)
+                    ELSE IF At(tok, 20) # 46 THEN
+                         LET o == OffsetOf(tok, 20)
+                         IN IF ~o.ok THEN Rej("timestamp with time needs a valid offset", 0)
+                            ELSE Localised(y, mo, d, h, mi, s, <<>>, o, 5)
+                    ELSE
+                    LET fe == SelectInSubSeq(tok, 21, n, LAMBDA c : ~IsDigit(c))
+                    IN IF fe = 0 \/ fe = 21 THEN bad
+                       ELSE LET o == OffsetOf(tok, fe)
+                                frac == [i \in 1..(fe - 21) |-> tok[20 + i] - 48]
+                            IN IF ~o.ok THEN Rej("timestamp with time needs a valid offset", 0)
+                               ELSE Localised(y, mo, d, h, mi, s, frac, o, 6)
+
+LooksLikeTimestamp(tok) == Len(tok) >= 5 /\ TwoDig(tok, 1) /\ TwoDig(tok, 3) /\ tok[5] \in {84, 45}
+
+(* ---- a numeric token (maximal run of non-stop characters starting with a digit or '-') ---- *)
+ParseNumberTok(tok) ==
+  IF LooksLikeTimestamp(tok) THEN
+     LET t == ParseTimestampTok(tok)
+     IN IF ~t.ok THEN t ELSE [ok |-> TRUE, v |-> Val("timestamp", <<>>, t.ts)]
+  ELSE
+  LET neg  == tok[1] = 45
+      body == IF neg THEN Tail(tok) ELSE tok
+  IN IF body = <<>> THEN Rej("lone minus sign", 0)
+     ELSE IF Len(body) >= 2 /\ body[1] = 48 /\ body[2] \in {120, 88} THEN
+          LET ds == SubSeq(body, 3, Len(body))
+          IN IF ~DigitsOK(ds, IsHexDig) THEN Rej("malformed hexadecimal integer", 0)
+             ELSE LET mag == FromRadix(DigitVals(ds), 16)
+                  IN IF neg /\ mag = <<>> THEN Rej("open: negative zero integer in text", 0)
+                     ELSE [ok |-> TRUE, v |-> Val("int", <<>>, [neg |-> neg, mag |-> mag])]
+     ELSE IF Len(body) >= 2 /\ body[1] = 48 /\ body[2] \in {98, 66} THEN
+          LET ds == SubSeq(body, 3, Len(body))
+          IN IF ~DigitsOK(ds, IsBinDig) THEN Rej("malformed binary integer", 0)
+             ELSE LET mag == FromRadix(DigitVals(ds), 2)
+                  IN IF neg /\ mag = <<>> THEN Rej("open: negative zero integer in text", 0)
+                     ELSE [ok |-> TRUE, v |-> Val("int", <<>>, [neg |-> neg, mag |-> mag])]
+     ELSE
+     LET x  == SelectInSeq(body, LAMBDA c : c \in {101, 69, 100, 68})      \* exponent marker
+         mant == IF x = 0 THEN body ELSE SubSeq(body, 1, x - 1)
+         dot  == SelectInSeq(mant, LAMBDA c : c = 46)
+         ip   == IF dot = 0 THEN mant ELSE SubSeq(mant, 1, dot - 1)
+         fp   == IF dot = 0 THEN <<>> ELSE SubSeq(mant, dot + 1, Len(mant))
+         ex   == IF x = 0 THEN [ok |-> TRUE, neg |-> FALSE, val |-> 0]
+                 ELSE ExpOf(SubSeq(body, x + 1, Len(body)))
+     IN IF ~IntPartOK(ip) THEN Rej("malformed number", 0)
+        ELSE IF fp # <<>> /\ ~DigitsOK(fp, IsDigit) THEN Rej("malformed fraction", 0)
+        ELSE IF ~ex.ok THEN Rej("malformed exponent", 0)
+        ELSE IF ex.val >= Huge THEN Rej("limit: exponent beyond 2^30", 0)
+        ELSE
+        LET idig == DigitVals(ip)
+            fdig == IF fp = <<>> THEN <<>> ELSE DigitVals(fp)
+            e10  == (IF ex.neg THEN 0 - ex.val ELSE ex.val) - Len(fdig)
+        IN IF x = 0 /\ dot = 0 THEN
+                LET mag == FromDec(idig)
+                IN IF neg /\ mag = <<>> THEN Rej("open: negative zero integer in text", 0)
+                   ELSE [ok |-> TRUE, v |-> Val("int", <<>>, [neg |-> neg, mag |-> mag])]
+           ELSE IF x # 0 /\ body[x] \in {101, 69} THEN
+                [ok |-> TRUE, v |-> Val("float", <<>>, DecToF64(neg, idig \o fdig, e10))]
+           ELSE [ok |-> TRUE, v |-> Val("decimal", <<>>,
+                                       [neg |-> neg, coef |-> FromDec(idig \o fdig), exp |-> e10])]
+
+\* end (exclusive) of the scalar token starting at p
+TokenEnd(bs, p) ==
+  LET q == SelectInSubSeq(bs, p, Len(bs), LAMBDA c : c \in StopSet \/ c = 47)
+  IN IF q = 0 THEN Len(bs) + 1
+     ELSE q      \* a '/' inside a number is never legal, so the token may end there too
+
+(***************************************************************************)
+(* Symbols, keywords                                                       *)
+(***************************************************************************)
+IdentEnd(bs, p) == LET q == SelectInSubSeq(bs, p, Len(bs), LAMBDA c : ~IsIdPart(c))
+                   IN IF q = 0 THEN Len(bs) + 1 ELSE q
+
+K_null  == <<110, 117, 108, 108>>
+K_true  == <<116, 114, 117, 101>>
+K_false == <<102, 97, 108, 115, 101>>
+K_nan   == <<110, 97, 110>>
+K_inf   == <<105, 110, 102>>
+Keywords == {K_null, K_true, K_false, K_nan}
+
+TypeNameBytes == [t \in Types |->
+  CASE t = "null" -> K_null
+    [] t = "bool" -> <<98, 111, 111, 108>>
+    [] t = "int" -> <<105, 110, 116>>
+    [] t = "float" -> <<102, 108, 111, 97, 116>>
+    [] t = "decimal" -> <<100, 101, 99, 105, 109, 97, 108>>
+    [] t = "timestamp" -> <<116, 105, 109, 101, 115, 116, 97, 109, 112>>
+    [] t = "symbol" -> <<115, 121, 109, 98, 111, 108>>
+    [] t = "string" -> <<115, 116, 114, 105, 110, 103>>
+    [] t = "clob" -> <<99, 108, 111, 98>>
+    [] t = "blob" -> <<98, 108, 111, 98>>
+    [] t = "list" -> <<108, 105, 115, 116>>
+    [] t = "sexp" -> <<115, 101, 120, 112>>
+    [] t = "struct" -> <<115, 116, 114, 117, 99, 116>>]
+
+\* $<digits> : a symbol ID reference (returns -1 when id is not of that shape, Huge when enormous)
+SidOfIdent(id) ==
+  IF Len(id) >= 2 /\ id[1] = 36 /\ \A i \in 2..Len(id) : IsDigit(id[i])
+  THEN ToSmall(FromDec([i \in 1..(Len(id) - 1) |-> id[i + 1] - 48]))
+  ELSE -1
+
+\* $ion_<digits>_<digits>
+IsVersionMarkerShape(id) ==
+  /\ Len(id) >= 8 /\ SubSeq(id, 1, 5) = <<36, 105, 111, 110, 95>>
+  /\ LET rest == SubSeq(id, 6, Len(id))
+         u == SelectInSeq(rest, LAMBDA c : c = 95)
+     IN /\ u > 1 /\ u < Len(rest)
+        /\ \A i \in 1..Len(rest) : i = u \/ IsDigit(rest[i])
+
+\* the token an identifier denotes under ctx: [ok, tok]
+IdentToken(id, ctx, at) ==
+  LET sid == SidOfIdent(id)
+  IN IF sid = -1 THEN [ok |-> TRUE, tok |-> TextTok(id)]
+     ELSE IF ~ValidSid(ctx, sid) THEN Rej("symbol id beyond max_id", at)
+     ELSE [ok |-> TRUE, tok |-> Resolve(ctx, sid)]
+
+\* operator run starting at p (stops before a comment start)
+RECURSIVE OpEnd(_, _)
+OpEnd(bs, p) == IF IsOp(At(bs, p)) /\ ~IsCommentStart(bs, p) THEN OpEnd(bs, p + 1) ELSE p
+
+(***************************************************************************)
+(* Values                                                                  *)
+(*                                                                         *)
+(* ParseValue(bs, p, ctx, inSexp, anns): p is at the first character of a  *)
+(* value (whitespace already skipped).  [ok, v, next] or Rej.              *)
+(***************************************************************************)
+RECURSIVE ParseValue(_, _, _, _, _), ParseList(_, _, _, _, _), ParseSexp(_, _, _, _),
+          ParseStruct(_, _, _, _, _)
+
+WithAnn(r, anns) == IF ~r.ok THEN r ELSE [r EXCEPT !.v = [r.v EXCEPT !.ann = anns]]
+
+\* after a symbol-ish token ending at q: is it an annotation (followed by ::)?  -> index after :: or 0
+AfterDoubleColon(bs, q) ==
+  LET w == SkipWs(bs, q)
+  IN IF w.ok /\ At(bs, w.next) = 58 /\ At(bs, w.next + 1) = 58 THEN w.next + 2 ELSE 0
+
+\* continue after an annotation token
+AnnotThen(bs, dc, ctx, inSexp, anns, tok) ==
+  LET w == SkipWs(bs, dc)
+  IN IF ~w.ok THEN w
+     ELSE IF At(bs, w.next) = EOFc \/ At(bs, w.next) \in {93, 41, 125, 44, 58}
+          THEN Rej("annotation without a value", w.next)
+     ELSE ParseValue(bs, w.next, ctx, inSexp, Append(anns, tok))
+
+ParseValue(bs, p, ctx, inSexp, anns) ==
+  LET c == At(bs, p)
+  IN
+  IF c = 34 THEN
+       LET r == ParseString(bs, p)
+       IN IF ~r.ok THEN r ELSE [ok |-> TRUE, v |-> Val("string", anns, r.bytes), next |-> r.next]
+  ELSE IF IsTriple(bs, p) THEN
+       LET r == ParseString(bs, p)
+       IN IF ~r.ok THEN r ELSE [ok |-> TRUE, v |-> Val("string", anns, r.bytes), next |-> r.next]
+  ELSE IF c = 39 THEN
+       LET r == ParseQuotedSymbol(bs, p)
+       IN IF ~r.ok THEN r
+          ELSE LET dc == AfterDoubleColon(bs, r.next)
+               IN IF dc # 0 THEN AnnotThen(bs, dc, ctx, inSexp, anns, TextTok(r.bytes))
+                  ELSE [ok |-> TRUE, v |-> Val("symbol", anns, TextTok(r.bytes)), next |-> r.next]
+  ELSE IF c = 123 THEN
+       IF At(bs, p + 1) = 123 THEN WithAnn(ParseLob(bs, p), anns)
+       ELSE LET w == SkipWs(bs, p + 1)
+            IN IF ~w.ok THEN w ELSE WithAnn(ParseStruct(bs, w.next, ctx, <<>>, TRUE), anns)
+  ELSE IF c = 91 THEN
+       LET w == SkipWs(bs, p + 1)
+       IN IF ~w.ok THEN w ELSE WithAnn(ParseList(bs, w.next, ctx, <<>>, TRUE), anns)
+  ELSE IF c = 40 THEN
+       LET w == SkipWs(bs, p + 1)
+       IN IF ~w.ok THEN w ELSE WithAnn(ParseSexp(bs, w.next, ctx, <<>>), anns)
+  ELSE IF c \in {43, 45} /\ Len(bs) >= p + 3 /\ SubSeq(bs, p + 1, p + 3) = K_inf
+          /\ EndsScalar(bs, p + 4) THEN
+       [ok |-> TRUE, next |-> p + 4,
+        v |-> Val("float", anns, IF c = 43 THEN <<127, 240, 0, 0, 0, 0, 0, 0>>
+                                          ELSE <<255, 240, 0, 0, 0, 0, 0, 0>>)]
+  ELSE IF IsDigit(c) \/ (c = 45 /\ IsDigit(At(bs, p + 1))) THEN
+       LET e == TokenEnd(bs, p)
+           r == ParseNumberTok(SubSeq(bs, p, e - 1))
+       IN IF ~r.ok THEN [r EXCEPT !.at = p]
+          ELSE IF ~EndsScalar(bs, e) THEN Rej("number not followed by a stop character", e)
+          ELSE [ok |-> TRUE, v |-> [r.v EXCEPT !.ann = anns], next |-> e]
+  ELSE IF IsIdStart(c) THEN
+       LET e  == IdentEnd(bs, p)
+           id == SubSeq(bs, p, e - 1)
+       IN IF id = K_null THEN
+               IF At(bs, e) = 46 THEN
+                    LET te == IdentEnd(bs, e + 1)
+                        tn == SubSeq(bs, e + 1, te - 1)
+                    IN IF \E t \in Types : TypeNameBytes[t] = tn
+                       THEN [ok |-> TRUE, next |-> te,
+                             v |-> NullVal(CHOOSE t \in Types : TypeNameBytes[t] = tn, anns)]
+                       ELSE Rej("null. followed by something that is not a type name", e)
+               ELSE [ok |-> TRUE, v |-> NullVal("null", anns), next |-> e]
+          ELSE IF id = K_true THEN [ok |-> TRUE, v |-> Val("bool", anns, TRUE), next |-> e]
+          ELSE IF id = K_false THEN [ok |-> TRUE, v |-> Val("bool", anns, FALSE), next |-> e]
+          ELSE IF id = K_nan THEN [ok |-> TRUE, v |-> Val("float", anns, NaNBits), next |-> e]
+          ELSE
+          LET t  == IdentToken(id, ctx, p)
+              dc == AfterDoubleColon(bs, e)
+          IN IF ~t.ok THEN t
+             ELSE IF dc # 0 THEN AnnotThen(bs, dc, ctx, inSexp, anns, t.tok)
+             ELSE [ok |-> TRUE, v |-> Val("symbol", anns, t.tok), next |-> e]
+  ELSE IF IsOp(c) /\ inSexp THEN
+       LET e == OpEnd(bs, p)
+       IN [ok |-> TRUE, v |-> Val("symbol", anns, TextTok(SubSeq(bs, p, e - 1))), next |-> e]
+  ELSE IF c = EOFc THEN Rej("input ends where a value is expected", p)
+  ELSE Rej("unexpected character where a value is expected", p)
+
+\* p is past whitespace, at an element or at ]
+ParseList(bs, p, ctx, acc, first) ==
+  IF At(bs, p) = 93 THEN [ok |-> TRUE, v |-> Val("list", <<>>, acc), next |-> p + 1]
+  ELSE IF At(bs, p) = EOFc THEN Rej("unterminated list", p)
+  ELSE
+  LET r == ParseValue(bs, p, ctx, FALSE, <<>>)
+  IN IF ~r.ok THEN r
+     ELSE LET w == SkipWs(bs, r.next)
+          IN IF ~w.ok THEN w
+             ELSE IF At(bs, w.next) = 93
+                  THEN [ok |-> TRUE, v |-> Val("list", <<>>, Append(acc, r.v)), next |-> w.next + 1]
+             ELSE IF At(bs, w.next) = 44 THEN
+                  LET w2 == SkipWs(bs, w.next + 1)
+                  IN IF ~w2.ok THEN w2
+                     ELSE IF At(bs, w2.next) = 44 THEN Rej("empty list element", w2.next)
+                     ELSE ParseList(bs, w2.next, ctx, Append(acc, r.v), FALSE)
+             ELSE IF At(bs, w.next) = EOFc THEN Rej("unterminated list", w.next)
+             ELSE Rej("list elements must be separated by commas", w.next)
+
+ParseSexp(bs, p, ctx, acc) ==
+  IF At(bs, p) = 41 THEN [ok |-> TRUE, v |-> Val("sexp", <<>>, acc), next |-> p + 1]
+  ELSE IF At(bs, p) = EOFc THEN Rej("unterminated sexp", p)
+  ELSE
+  LET r == ParseValue(bs, p, ctx, TRUE, <<>>)
+  IN IF ~r.ok THEN r
+     ELSE LET w == SkipWs(bs, r.next)
+          IN IF ~w.ok THEN w ELSE ParseSexp(bs, w.next, ctx, Append(acc, r.v))
+
+\* a field name at p: [ok, tok, next]
+ParseFieldName(bs, p, ctx) ==
+  LET c == At(bs, p)
+  IN IF c = 34 \/ IsTriple(bs, p) THEN
+          LET r == ParseString(bs, p)
+          IN IF ~r.ok THEN r ELSE [ok |-> TRUE, tok |-> TextTok(r.bytes), next |-> r.next]
+     ELSE IF c = 39 THEN
+          LET r == ParseQuotedSymbol(bs, p)
+          IN IF ~r.ok THEN r ELSE [ok |-> TRUE, tok |-> TextTok(r.bytes), next |-> r.next]
+     ELSE IF IsIdStart(c) THEN
+          LET e == IdentEnd(bs, p)
+              id == SubSeq(bs, p, e - 1)
+          IN IF id \in Keywords THEN Rej("keyword used as a field name", p)
+             ELSE LET t == IdentToken(id, ctx, p)
+                  IN IF ~t.ok THEN t ELSE [ok |-> TRUE, tok |-> t.tok, next |-> e]
+     ELSE IF c = EOFc THEN Rej("unterminated struct", p)
+     ELSE Rej("unexpected character where a field name is expected", p)
+
+ParseStruct(bs, p, ctx, acc, first) ==
+  IF At(bs, p) = 125 THEN [ok |-> TRUE, v |-> Val("struct", <<>>, acc), next |-> p + 1]
+  ELSE
+  LET f == ParseFieldName(bs, p, ctx)
+  IN IF ~f.ok THEN f
+     ELSE
+     LET w == SkipWs(bs, f.next)
+     IN IF ~w.ok THEN w
+        ELSE IF At(bs, w.next) # 58 \/ At(bs, w.next + 1) = 58 THEN Rej("field name must be followed by a single colon", w.next)
+        ELSE
+        LET w2 == SkipWs(bs, w.next + 1)
+        IN IF ~w2.ok THEN w2
+           ELSE IF At(bs, w2.next) \in {125, 44} THEN Rej("field name without a value", w2.next)
+           ELSE
+           LET r == ParseValue(bs, w2.next, ctx, FALSE, <<>>)
+           IN IF ~r.ok THEN r
+              ELSE
+              LET w3 == SkipWs(bs, r.next)
+                  fld == [name |-> f.tok, val |-> r.v]
+              IN IF ~w3.ok THEN w3
+                 ELSE IF At(bs, w3.next) = 125
+                      THEN [ok |-> TRUE, v |-> Val("struct", <<>>, Append(acc, fld)), next |-> w3.next + 1]
+                 ELSE IF At(bs, w3.next) = 44 THEN
+                      LET w4 == SkipWs(bs, w3.next + 1)
+                      IN IF ~w4.ok THEN w4
+                         ELSE IF At(bs, w4.next) = 44 THEN Rej("empty struct member", w4.next)
+                         ELSE ParseStruct(bs, w4.next, ctx, Append(acc, fld), FALSE)
+                 ELSE IF At(bs, w3.next) = EOFc THEN Rej("unterminated struct", w3.next)
+                 ELSE Rej("struct members must be separated by commas", w3.next)
+
+(***************************************************************************)
+(* Top level                                                               *)
+(***************************************************************************)
+IsIVMValue(bs, p, v, next) ==      \* unannotated, unquoted $ion_1_0
+  /\ v.t = "symbol" /\ ~v.null /\ v.ann = <<>>
+  /\ At(bs, p) = 36 /\ SubSeq(bs, p, next - 1) = T_ion_1_0
+
+RECURSIVE TextTop(_, _, _, _, _)
+TextTop(bs, p, ctx, cat, forest) ==
+  LET w == SkipWs(bs, p)
+  IN IF ~w.ok THEN w
+     ELSE IF w.next > Len(bs) THEN [ok |-> TRUE, forest |-> forest, ctx |-> ctx]
+     ELSE
+     LET r == ParseValue(bs, w.next, ctx, FALSE, <<>>)
+     IN IF ~r.ok THEN r
+        ELSE IF IsIVMValue(bs, w.next, r.v, r.next) THEN TextTop(bs, r.next, SystemSlots, cat, forest)
+        ELSE IF r.v.t = "symbol" /\ ~r.v.null /\ r.v.ann = <<>> /\ At(bs, w.next) = 36
+                /\ IsVersionMarkerShape(SubSeq(bs, w.next, r.next - 1))
+             THEN Rej("open: version marker other than $ion_1_0", w.next)
+        ELSE IF IsLST(r.v) THEN
+             LET a == ApplyLST(r.v, ctx, cat)
+             IN IF ~a.ok THEN [a EXCEPT !.at = w.next] ELSE TextTop(bs, r.next, a.ctx, cat, forest)
+        ELSE TextTop(bs, r.next, ctx, cat, Append(forest, r.v))
+
+TextDecodeCat(bs, cat) == TextTop(bs, 1, SystemSlots, cat, <<>>)
+TextDecode(bs) == TextDecodeCat(bs, <<>>)
 =============================================================================
